@@ -99,15 +99,16 @@ def supported : Ty → Bool
   | .dc _ fs => C03.supportedF fs
   | _ => true
 
-/-- every temporal / decimal column in `t` stores what it accepts unchanged (true of date32, microsecond units, decimals;
-false of second / millisecond units, which truncate) -/
-def lossless (env : Env) : Ty → Prop
-  | .native k p s => ∀ a b a' b', env.native k p s a b = some (a', b') → nativeSame k a b a' b' = true
-  | .opt t => lossless env t
-  | .list t => lossless env t
-  | .set t => lossless env t
-  | .map k w => lossless env k ∧ lossless env w
-  | _ => True
+/-- every temporal / decimal value inside `v` is stored unchanged by its column if it is accepted at all (true of dates,
+microsecond units and decimals whose coefficient fits 128 bits; false of second / millisecond units, which truncate, and of
+39-digit decimal coefficients, which pyarrow wraps) -/
+def lossless (env : Env) : Ty → V → Prop
+  | .native k p s, .native _ a b => ∀ a' b', env.native k p s a b = some (a', b') → nativeSame k a b a' b' = true
+  | .opt t, v => lossless env t v
+  | .list t, .list xs => ∀ x ∈ xs, lossless env t x
+  | .set t, .set xs => ∀ x ∈ xs, lossless env t x
+  | .map k w, .dict kvs => ∀ p ∈ kvs, lossless env k p.1 ∧ lossless env w p.2
+  | _, _ => True
 
 namespace Spec
 
